@@ -79,6 +79,18 @@ def vectors(ctx):
         for f in gen.selfsimilar(rng, df):
             add(f, 0, tag="selfsim", cs=rng.choice([0, 1, 2 + df]))
             add(f, 1, tag="selfsim", cs=rng.choice([0, 1, 2 + df]))
+    # (5d) frames whose leading k bytes are a complete codeword (remainder zero part-way through the division), followed by
+    # zero bytes and / or more data: concatenations of valid frames, a valid short frame padded to the long length, ...
+    for k in range(ctx.pick(300, 20000)):
+        n = 14 if k % 4 else 7
+        cut = rng.randrange(4, n)
+        head = gen.with_parity([rng.randrange(256) for _ in range(cut - 3)])
+        rest = [0 if rng.random() < 0.5 else rng.randrange(256) for _ in range(n - cut)]
+        if rest and k % 2:
+            rest[0] = 0
+        f = head + rest
+        add(f, 0, tag="prefixcw", cs=rng.choice([0, 1]))
+        add(f, 1, tag="prefixcw")
     # (5c) call histories: related frames (shared prefix across the two lengths, same data with another parity field, same
     # frame in another letter case) one after the other in one process - each result may depend on its own argument only
     for k in range(ctx.pick(400, 20000)):
